@@ -331,6 +331,37 @@ func run(c Case) (v vkit.Verdict) {
 					v.NonTrivial = true
 					ev.Refilled = ev.Refilled || false
 				}
+			case "nnswap":
+				if len(m.Live) < 2 {
+					return
+				}
+				queries++
+				v.Class("same_point_asked_again_after_one_insert_and_one_delete")
+				p := geom.Point{X: float64(op.Qx)/2 + op.F[0], Y: float64(op.Qy)/2 + op.F[1]}
+				if msg = nnWrong(m, p, false); msg != "" {
+					return
+				}
+				first := m.Tree.NearestNeighbor(p)
+				// an object right on the query point, then some other object (neither the first answer nor the new one) gone
+				if msg = m.Step(rtreekit.Op{K: "ins", Box: [4]int{op.Qx / 2, op.Qy / 2, 0, 0}, F: [4]float64{float64(op.Qx%2)/2 + op.F[0], float64(op.Qy%2)/2 + op.F[1], 0, 0}}, &ev, false); msg != "" {
+					return
+				}
+				for k := 0; k < len(m.Live)-1; k++ {
+					i := (op.Idx + k) % (len(m.Live) - 1)
+					if m.Live[i] != first {
+						msg = m.Step(rtreekit.Op{K: "del", Idx: i}, &ev, false)
+						break
+					}
+				}
+				if msg != "" {
+					return
+				}
+				if msg = nnWrong(m, p, false); msg == "" {
+					msg = nnWrong(m, p, true)
+				}
+				if msg != "" {
+					msg = "the same point asked again after one insert and one delete: " + msg
+				}
 			case "del":
 				defer func() {
 					if msg != "" || len(m.Live) == 0 {
